@@ -72,6 +72,7 @@ def definitions(m):
     return d
 
 
+_METRIC_OBJECTS = {}
 METRICS = ["CircuitDepth", "CircuitEmitterCount", "CircuitCnotCount", "CircuitUnitaryCount", "CircuitMeasureCount",
            "CircuitMaxEmitDepth", "CircuitMaxEmitResetDepth", "CircuitMaxEmitEffDepth"]
 
@@ -89,12 +90,12 @@ def check_circuit(acc, circ, m, case):
         for ctor in ("default", "explicit"):
             acc.transitions += 1
             try:
-                if ctor == "default":
-                    met = cls()
-                    exp = want[name]
-                else:
-                    met = cls(1, lambda x: 2 * x + 1)
-                    exp = 2 * want[name] + 1
+                # one metric object per (class, constructor) is reused for all circuits of a worker, as a solver reuses its metric
+                # over a whole population: anything the object remembers from an earlier circuit must not leak into the next value
+                met = _METRIC_OBJECTS.get((name, ctor))
+                if met is None:
+                    met = _METRIC_OBJECTS[(name, ctor)] = cls() if ctor == "default" else cls(1, lambda x: 2 * x + 1)
+                exp = want[name] if ctor == "default" else 2 * want[name] + 1
                 v1 = met.evaluate(None, circ)
                 v2 = met.evaluate(None, circ)
             except Exception as e:
